@@ -134,7 +134,9 @@ class RedisMessageBroker(MessageBrokerT):
                 self.__put_in_queue(
                     key,
                     pipe,
-                    delay_until=utils.wait_timestamp(params),
+                    # a message which was taken as due goes back as it was - deliverable; computing
+                    # its schedule anew would move a periodic message, which hasn't run yet, one period on
+                    delay_until=None if reject_to == "n" else utils.wait_timestamp(params),
                     in_front=True,
                 )
             self.__unmark_processing(key, pipe)
